@@ -237,6 +237,13 @@ class SpanWrappingMatcher(wrappers.WrappingMatcher):
         self.child.skip_to(id)
         self._find_next()
 
+    def skip_to_quality(self, minquality):
+        skipped = self.child.skip_to_quality(minquality)
+        # The child may have landed on a document without matching spans
+        if self.is_active():
+            self._find_next()
+        return skipped
+
     def all_ids(self):
         while self.is_active():
             if self.spans():
